@@ -717,43 +717,75 @@ func (x *Exec) assumeInstances(fr *frame, st *State, cl Clause, opts *evalOpts, 
 		return
 	}
 	for _, gi := range x.fc.Instances {
-		if !mentionsIdentDeep(x, cl.Expr, gi.Ghost) {
+		if !mentionsAny(x, cl.Expr, gi.Ghosts) {
 			continue
 		}
-		for _, ie := range gi.Exprs {
-			func() {
-				defer func() {
-					if r := recover(); r != nil {
-						if _, ok := r.(structureError); !ok {
-							panic(r)
-						}
-					}
+		for _, row := range gi.Rows {
+			if o2 := x.instanceOpts(fr, st, gi, row, opts, fr, st); o2 != nil {
+				func() {
+					defer recoverStructure()
+					g := x.evalBoolClause(fr, st, cl, o2)
+					x.vc.assume(mkImplies(guard, g), what+" instance "+strings.Join(gi.Ghosts, ",")+" := "+row[0].Src)
 				}()
-				o2 := *opts
-				o2.ghost = map[string]Value{}
-				for k, v := range opts.ghost {
-					o2.ghost[k] = v
-				}
-				// the instance term is evaluated with the plain options (it may use pre()/old())
-				iv := x.evalExpr(fr, st, ie.Expr, opts)
-				cur, has := opts.ghost[gi.Ghost]
-				if !has {
-					cur = x.evalIdent(fr, st, gi.Ghost, opts)
-				}
-				if sc, ok := cur.(Sc); ok {
-					if u, isU := iv.(Untyped); isU {
-						iv = x.coerceTo(u, sc.Sort, sc.Signed)
-					}
-					if isc, ok2 := iv.(Sc); ok2 && isc.Sort != sc.Sort {
-						iv = Sc{T: resize(isc.T, sc.W(), isc.Signed), Signed: sc.Signed}
-					}
-				}
-				o2.ghost[gi.Ghost] = iv
-				g := x.evalBoolClause(fr, st, cl, &o2)
-				x.vc.assume(mkImplies(guard, g), what+" instance "+gi.Ghost+" := "+ie.Src)
-			}()
+			}
 		}
 	}
+}
+
+func recoverStructure() {
+	if r := recover(); r != nil {
+		if _, ok := r.(structureError); !ok {
+			panic(r)
+		}
+	}
+}
+
+func mentionsAny(x *Exec, e ast.Expr, names []string) bool {
+	for _, n := range names {
+		if mentionsIdentDeep(x, e, n) {
+			return true
+		}
+	}
+	return false
+}
+
+// instanceOpts evaluates one instance row (in frame ifr / state ist with the plain options) and returns
+// evaluation options in which the ghosts are bound to those values; nil if a term cannot be evaluated
+// at this point (names not in scope).
+func (x *Exec) instanceOpts(ifr *frame, ist *State, gi GhostInstance, row []Clause, iopts *evalOpts, gfr *frame, gst *State) (res *evalOpts) {
+	defer func() {
+		if r := recover(); r != nil {
+			if _, ok := r.(structureError); !ok {
+				panic(r)
+			}
+			res = nil
+		}
+	}()
+	o2 := *iopts
+	o2.ghost = map[string]Value{}
+	for k, v := range iopts.ghost {
+		o2.ghost[k] = v
+	}
+	for k, gname := range gi.Ghosts {
+		iv := x.evalExpr(ifr, ist, row[k].Expr, iopts)
+		cur, has := iopts.ghost[gname]
+		if !has {
+			cur = x.evalIdent(gfr, gst, gname, iopts)
+		}
+		if sc, ok := cur.(Sc); ok {
+			if u, isU := iv.(Untyped); isU {
+				iv = x.coerceTo(u, sc.Sort, sc.Signed)
+			}
+			if isc, ok2 := iv.(Sc); ok2 && isc.Sort != sc.Sort {
+				if sc.W() == 0 || isc.W() == 0 {
+					bail("instance of ghost %s has sort %s, expected %s", gname, isc.Sort, sc.Sort)
+				}
+				iv = Sc{T: resize(isc.T, sc.W(), isc.Signed), Signed: sc.Signed}
+			}
+		}
+		o2.ghost[gname] = iv
+	}
+	return &o2
 }
 
 // mentionsIdentDeep: the identifier occurs in the expression or in a macro it expands to.
